@@ -15,7 +15,7 @@ META = {
               "find_minimal_distance replaced by an ite-merged summary translated from its current source (validated at start-up and by per-path cross-validation)"],
 }
 
-LISTS = {"gap": [6, 48], "asc": [6, 12, 24], "desc": [24, 12, 6], "fine": [4, 6, 12], "one": [12], "default": None}
+LISTS = {"dup": [6, 12, 12, 24], "gap": [6, 48], "asc": [6, 12, 24], "desc": [24, 12, 6], "fine": [4, 6, 12], "one": [12], "default": None}
 SHAPES = {
     "n1": ["W", ("ON", 0), "W", ("OFF", 0), "W"],
     "n1b": [("ON", 0), "W", ("OFF", 0)],
@@ -103,9 +103,12 @@ def q_qnl(shape, lname, noext, wmax, insertion="relative"):
         ctx.must("closest_fitting_value", and_(best))
         other = [e for e in ea if e.kind not in (ON, OFF)]
         ctx.must("other_events_untouched", events_eq_multiset_timed(other, b.events))
+        # the result is the sequence's content through either view
+        er_, _dr = rel_events(raw_rel(seq))
+        ctx.must("relative_view_follows", events_eq_multiset_timed(er_, ea))
         return [obs_events(ea, da)]
     cl = ["paired", "durations_allowed", "notes_are_input_notes", "no_duplicates", "no_overlap", "removed_iff_nothing_fits",
-          "closest_fitting_value", "other_events_untouched"] + (["never_longer"] if noext else [])
+          "closest_fitting_value", "other_events_untouched", "relative_view_follows"] + (["never_longer"] if noext else [])
     return Query(f"{shape}/{lname}/{'noext' if noext else 'ext'}/w{wmax}{'/' + insertion if insertion != 'relative' else ''}", fn, cl,
                  desc=f"quantise_note_lengths({values if values else 'default'}, do_not_extend={noext}) on shape {shape}")
 
@@ -121,6 +124,7 @@ def queries(tier, seed):
             qs.append(q_qnl("n1", "default", noext, 40))
             qs.append(q_qnl("n2same", "default", noext, 20))
             qs.append(q_qnl("n2same", "gap", noext, 50))
+            qs.append(q_qnl("n2same", "dup", noext, 30))          # a value list with a repeated entry
             qs.append(q_qnl("n2same", "fine", noext, 16, insertion="via_quantise_and_normalise"))
             qs.append(q_qnl("n2same", "desc", noext, 30, insertion="late-first"))
             qs.append(q_qnl("n2same", "asc", noext, 30, insertion="late-first"))
@@ -136,6 +140,7 @@ def queries(tier, seed):
             qs.append(q_qnl("n2free", "default", noext, 24))
             qs.append(q_qnl("n2same", "gap", noext, 60))
             qs.append(q_qnl("n3same", "gap", noext, 30))
+            qs.append(q_qnl("n2same", "dup", noext, 40))
             for ln in ("asc", "desc", "fine"):
                 qs.append(q_qnl("n2same", ln, noext, 40, insertion="late-first"))
                 qs.append(q_qnl("n3same", ln, noext, 20, insertion="late-first"))
